@@ -488,6 +488,35 @@ func (x *evx) mapSlots(r *Resolver, prefix string, m ssa.Value, at ssa.Instructi
 	mv := strip(m)
 	mk, ok := mv.(*ssa.MakeMap)
 	if !ok {
+		// a map built by a repository helper: every return of the helper
+		// yields a map made in the helper; its updates are the slots, the
+		// helper's parameters bound to the caller's arguments
+		if cl, isCall := mv.(*ssa.Call); isCall {
+			if sc := staticCallee(cl.Common()); sc != nil && InRepo(sc) && sc.Blocks != nil && sc.Signature.Results().Len() == 1 {
+				var mks []*ssa.MakeMap
+				okAll := true
+				allInstrs(sc, func(in ssa.Instruction) {
+					if ret, isRet := in.(*ssa.Return); isRet && len(ret.Results) == 1 {
+						if hm, isMk := strip(ret.Results[0]).(*ssa.MakeMap); isMk {
+							mks = append(mks, hm)
+						} else {
+							okAll = false
+						}
+					}
+				})
+				if okAll && len(mks) == 1 {
+					nr := r.Bind(sc, cl)
+					if refs := mks[0].Referrers(); refs != nil {
+						for _, u := range *refs {
+							if t, isMU := u.(*ssa.MapUpdate); isMU && t.Map == ssa.Value(mks[0]) {
+								x.out.add(prefix+"."+keyText(nr, t.Key), nr.Of(t.Value), at, false)
+							}
+						}
+					}
+					return
+				}
+			}
+		}
 		x.out.add(prefix, r.Of(m), at, must)
 		return
 	}
